@@ -82,6 +82,9 @@ var RaceMode bool
 // runs on the file-backed storages.
 var ScratchDir func() string
 
+// MaxExecutions (>0) caps the executions of one Explore call (one worker process).
+var MaxExecutions int
+
 // Debug, if set, sees the cluster at the end of every execution (dev aid).
 var Debug func(c *sim.Cluster)
 
@@ -203,6 +206,7 @@ type Result struct {
 	Preempting int            `json:"executions_with_preemption"`
 	Found      []*Found       `json:"found,omitempty"`
 	Deadline   bool           `json:"deadline_hit"`
+	Capped     bool           `json:"execution_cap_hit,omitempty"`
 	Samples    [][]int        `json:"samples,omitempty"`
 }
 
@@ -224,6 +228,13 @@ func Explore(sc *Scenario, bound int, deadline time.Time, shard, nshards int) *R
 		}
 		if !deadline.IsZero() && time.Now().After(deadline) {
 			res.Deadline = true
+			return
+		}
+		if MaxExecutions > 0 && res.Executions >= MaxExecutions {
+			// memory guard (race builds keep ~0.2 MB per execution): reported
+			// like a deadline, i.e. the enumeration is not claimed exhaustive
+			res.Deadline = true
+			res.Capped = true
 			return
 		}
 		o := RunOnce(sc, prefix)
